@@ -24,7 +24,7 @@ typedef long double L;
 
 static std::vector<std::string> g_log;        // one record per integrand call
 static std::vector<sz> g_bounds;              // log size at every callback invocation
-static int g_fn = 0;                          // 0 dyadic (exact sums), 1 smooth
+static int g_fn = 0;                          // 0 dyadic (exact sums), 1 smooth, 2 smooth with non-finite values in some cells
 
 template <typename T>
 static std::string rec(std::vector<T> const& p, T w, std::vector<sz> const* bin, sz channel)
@@ -41,6 +41,7 @@ template <typename T>
 static T fval(std::vector<T> const& y)
 {
     if (g_fn == 0) { T v = T(0.25); for (T x : y) v += T(static_cast<sz>(x * T(8))) / T(8); return v; }
+    if (g_fn == 2 && static_cast<sz>(y[0] * T(16)) % 4 == 1) return std::numeric_limits<T>::quiet_NaN();
     T v = T(1); for (T x : y) v *= T(1) / (T(0.1L) + x); return v;
 }
 
@@ -298,7 +299,9 @@ struct runner
         return env.advance(results, [&](int rank) {
             g_log.clear(); g_bounds.clear();
             std::string const file = "build/out/tmp/c04_unused";
-            C c = Kt::mpi(calls, dist, bound_cb<C>{hep::mpi_callback<C>(hep::callback_mode::silent, file, target)});
+            // with a target the run uses the verbose mode (printing is captured per rank): the stop decision must be
+            // the same on every rank whatever the mode
+            C c = Kt::mpi(calls, dist, bound_cb<C>{hep::mpi_callback<C>(target > T() ? hep::callback_mode::verbose : hep::callback_mode::silent, file, target)});
             out.logs[rank] = g_log; out.bounds[rank] = g_bounds; out.texts[rank] = text_of(c);
             if (rank == 0) chk0 = c;
         });
@@ -350,13 +353,14 @@ static void configs(report& r, bool thorough)
     std::vector<int> worlds_canon;
     if (thorough) for (int p = 1; p <= 33; ++p) worlds_canon.push_back(p);
     else worlds_canon = {4, 5, 8, 16, 33};
-    for (int fn = 0; fn != 2; ++fn)
+    for (int fn = 0; fn != 3; ++fn)
     for (int dist = 0; dist != 2; ++dist)
     for (sz li = 0; li != lists.size(); ++li)
     for (int tgt = 0; tgt != 2; ++tgt)
     {
         if (tgt == 1 && lists[li].size() < 3) continue;
-        if (K >= 3 && (dist == 1 || tgt == 1 || fn == 0 || li % 2 == 0)) continue;    // the two extra multi-channel shapes: a subset
+        if (K >= 3 && (dist == 1 || tgt == 1 || fn != 1 || li % 2 == 0)) continue;    // the two extra multi-channel shapes: a subset
+        if (fn == 2 && (tgt == 1 || li % 2 == 1)) continue;                            // non-finite values: half of the lists, no target
         T const target = tgt ? T(0.35L) : T();
         auto run_world = [&](int world, int order_mode) {
             std::string const id = base + " fn=" + std::to_string(fn) + " dist=" + std::to_string(dist) + " calls=" + vf::join(lists[li]) + " target=" + std::to_string(tgt)
